@@ -271,10 +271,10 @@ func (e *Engine) checkSlot(s *Sys, slot int) *Violation {
 		return e.v(s, "query-set", "filter %s visits an entity twice", spec)
 	}
 	if cnt != len(l) {
-		return e.v(s, "query-pos", "filter %s: Count()=%d but %d visited", spec, cnt, len(l))
+		return relAlso(e.v(s, "query-pos", "filter %s: Count()=%d but %d visited", spec, cnt, len(l)), spec)
 	}
 	if v := e.entityAtAgrees(s, s.Filters[slot], l, spec.String()); v != nil {
-		return v
+		return relAlso(v, spec) // Count / EntityAt of a relation filter are also "what the relation filter selects"
 	}
 	nMust := 0
 	for _, me := range e.M.Alive {
@@ -363,6 +363,12 @@ func (e *Engine) entityAtAgrees(s *Sys, f ecs.Filter, seq []ecs.Entity, what str
 	return nil
 }
 
+// alsoClass adds a further class to a violation.
+func alsoClass(v *Violation, class string) *Violation {
+	v.Also = append(v.Also, class)
+	return v
+}
+
 // relAlso: a registered RELATION filter is still a relation filter with target T; when its selection differs from the
 // original's (which has just been checked against the model), it does not select "exactly those whose current target
 // is T" either (C05).
@@ -408,7 +414,14 @@ func (e *Engine) census(s *Sys) *Violation {
 		for _, t := range targets {
 			rf := ecs.NewRelationFilter(ecs.All(s.IDs[r]), t)
 			q := w.Query(&rf)
+			cnt := q.Count()
 			l := collect(&q)
+			if cnt != len(l) {
+				return e.v(s, "target-census-missing", "relation filter (type %d, target %v): Count()=%d but %d entities are visited", r, t, cnt, len(l))
+			}
+			if v := e.entityAtAgrees(s, &rf, l, fmt.Sprintf("relation filter (type %d, target %v)", r, t)); v != nil {
+				return alsoClass(v, "target-census-missing")
+			}
 			set, dup := toSet(l)
 			want := m.Children(r, t)
 			if dup {
@@ -486,17 +499,17 @@ func (e *Engine) checkRegistry(s *Sys) *Violation {
 		rids = rids[:len(s.resOrder)]
 	}
 	if len(rids) != len(s.resOrder) {
-		return e.v(s, "registry", "ResourceIDs has %d entries, %d registered", len(rids), len(s.resOrder))
+		return alsoClass(e.v(s, "registry", "ResourceIDs has %d entries, %d registered", len(rids), len(s.resOrder)), "resource")
 	}
 	for n, i := range s.resOrder {
 		if rids[n] != s.ResIDs[i] {
-			return e.v(s, "registry", "ResourceIDs[%d] differs from the ID handed out at registration", n)
+			return alsoClass(e.v(s, "registry", "ResourceIDs[%d] differs from the ID handed out at registration", n), "resource")
 		}
 		if tp, ok := ecs.ResourceType(w, rids[n]); !ok || tp != resTypeOf(i) {
-			return e.v(s, "registry", "ResourceType of resource %d = %v", i, tp)
+			return alsoClass(e.v(s, "registry", "ResourceType of resource %d = %v", i, tp), "resource")
 		}
 		if again := ecs.ResourceTypeID(w, resTypeOf(i)); again != rids[n] {
-			return e.v(s, "registry", "resource type %d got another ID on the second lookup", i)
+			return alsoClass(e.v(s, "registry", "resource type %d got another ID on the second lookup", i), "resource")
 		}
 	}
 	return nil
